@@ -327,6 +327,11 @@ namespace occa {
     occaType newOccaType(const occa::json &json,
                          const bool needsFree) {
       if (json.isNull()) {
+        // The caller hands over ownership when needsFree is set:
+        // occaNull does not reference the object, so release it here
+        if (needsFree) {
+          delete &json;
+        }
         return occaNull;
       }
       occaType oType;
